@@ -110,7 +110,7 @@ func checkWrittenFont(c *rt.C, f *type1.Font, stdEnc []string, format type1.File
 		}
 		data = p
 	}
-	mf, err := ref.ReadType1(data, stdEnc)
+	mf, err := ref.ReadType1Sized(data, stdEnc, 1<<24)
 	if err != nil {
 		c.Violation("independent-reader|"+fmtName, fmt.Sprintf("the independent decoder cannot read the written font: %v", err), fmt.Sprintf("bytes (head): %q", head(data, 1200)))
 		return
@@ -175,6 +175,16 @@ func checkWrittenFont(c *rt.C, f *type1.Font, stdEnc []string, format type1.File
 		}
 	}
 	if lerr != nil {
+		longest := 0
+		for _, mg := range mf.Glyphs {
+			longest = max(longest, len(mg.Raw)+4)
+		}
+		if longest > 65535 {
+			// the interpreter's (and the PLRM's) string limit: such a
+			// charstring cannot be read back; C20 is about the numbers in it
+			c.Count("library read skipped: charstring longer than 65535 bytes")
+			return
+		}
 		c.Violation("read-error", fmt.Sprintf("type1.Read of the written font failed: %v", lerr), "")
 	}
 }
@@ -205,7 +215,13 @@ func comparePath(want []type1.GlyphOp, got []ref.MCmd, exact bool) string {
 		}
 		for j := range w.Args {
 			d := math.Abs(w.Args[j] - g.Args[j])
-			if (exact && d != 0) || d > bound214 {
+			// Both sides add up thousands of float64 deltas; the worst-case
+			// rounding error of that summation (half an ulp of the running
+			// coordinate per addition, three additions per command on each
+			// side) is allowed on top of the bound. For |x| < 10^6 and 10,000
+			// segments this is below 1e-5, far below 1/214.
+			fl := math.Max(math.Abs(w.Args[j]), 1) * 2.3e-16 * float64(6*(i+1))
+			if (exact && d != 0) || d > bound214+fl {
 				return fmt.Sprintf("command %d (%v): decoded %v, off by %.6g in coordinate %d (bound: %s)", i, w.Op, g.Args, d, j, map[bool]string{true: "exact", false: "1/214"}[exact])
 			}
 		}
